@@ -23,6 +23,8 @@ def check(rep):
     ER.rule_installed_function(ctx, rid="C12.INSTALLED-FUNCTION", strict=False, facets=("installed",))
     # "the evaluator's" assignments: an evaluator that skips a recompile for a different text keeps answering for the old experiment
     ER.rule_skip_guard(ctx, rid="C12.SKIP-EXACT")
+    # the salt hashed is the salt written: the characters of the text reach the lexer unchanged (a TAB inside a literal stays a TAB)
+    ER.rule_text_unmodified(ctx, rid="C12.TEXT-UNMODIFIED")
     ER.rule_value_keyed_caches(ctx, rid="C12.NO-VALUE-KEYED-CACHE", modules={"binning/binning.py", "experiment_evaluator.py"})
     rep.assume("MD5 itself (hashlib) is trusted")
     return ("Abstract evaluation of the source to a canonical scheme descriptor compared with the published one: hash = md5, "
